@@ -290,6 +290,23 @@ theorem C11_escape_hex (x : Byte) (xs rest : List Byte) (hx : ∀ y ∈ x :: xs,
 
 example : (∀ y ∈ [0x34#8, 0x31#8], isXDigit y = true) ∧ isXDigit (byteAt [0x22#8] 0) = false := by decide
 
+-- ------------------------------------------------------------------ character constants (6.4.4.4p10-11)
+
+/-- **C11 (character constants).**  A constant whose body is one source character (any code point up to U+10FFFF other
+    than NUL and the backslash, written in UTF-8) yields that code point and ends at the closing quote.  The value stored
+    for each prefix (`charPrefixes`: plain `(char)` cast, `u` `& 0xffff`, `L`/`U` unchanged) is: the `char` value
+    converted to `int` for a one-byte value (6.4.4.4p10: `'\377'` is -1 where `char` is signed), the value itself for a
+    `char16_t` value, and the `int` itself for `L`/`U` (type `int` / `unsigned int`: `wchar_t`, `char32_t`). -/
+theorem C11_char_const (pre post : List Byte) (c : BitVec 32) (hc : c.toNat < 0x110000) (h0 : c.toNat ≠ 0)
+    (h92 : c.toNat ≠ 92) :
+    readCharLiteral (pre ++ 39#8 :: (encodeUtf8 c ++ 39#8 :: post)) pre.length = .ok (c, pre.length + 1 + utf8Len c.toNat) ∧
+    (∀ n, n < 256 → charPost .castChar (BitVec.ofNat 32 n) = BitVec.ofInt 64 (if n < 128 then (n : Int) else (n : Int) - 256)) ∧
+    (∀ v : BitVec 32, v.toNat < 0x10000 → (charPost (.mask 0xFFFF) v).toNat = v.toNat) ∧
+    (∀ v : BitVec 32, (charPost .none v).toInt = v.toInt) :=
+  ⟨readCharLiteral_char pre post c hc h0 h92, charPost_values.1, charPost_values.2.1, charPost_values.2.2⟩
+
+example : (0x1F600#32).toNat < 0x110000 ∧ (0x1F600#32).toNat ≠ 0 ∧ (0x1F600#32).toNat ≠ 92 := by decide
+
 -- ------------------------------------------------------------------ string literals: one source character (6.4.5p6)
 
 /-- **C11 (source characters in string literals).**  For every code point up to U+10FFFF other than the backslash,
@@ -426,5 +443,15 @@ theorem C11_text_ucn (pre post : List Byte) (d0 d1 d2 d3 d4 d5 d6 d7 : Byte) (hp
 /-- non-vacuity: `\u00e9` -/
 example : isXDigit 0x30#8 = true ∧ isXDigit 0x65#8 = true ∧ isXDigit 0x39#8 = true ∧
     digitsValue 16 [hexVal 0x30#8, hexVal 0x30#8, hexVal 0x65#8, hexVal 0x39#8] = 0xE9 := by decide
+
+-- ------------------------------------------------------------------ open
+
+/-- OPEN (not proved): the composition of the phase theorems with the tokenizer — a backslash-newline anywhere in a text
+    does not change the literal token that `tokenize()` reads at the start of the text.  The components are proved above
+    (`C11_text_newlines`, `C11_text_splice`, `C11_text_ucn`, `C11_strings`, `C11_int_value`, `C11_char_const`); the
+    composition is only exercised by the correspondence run (text_phases, e2e_text). -/
+def C11_text_transparent_Statement : Prop :=
+  ∀ (a b : List Byte), BSL ∉ a → CR ∉ a → CR ∉ b → 0#8 ∉ a → 0#8 ∉ b →
+    lexLiteral (phase12 (a ++ BSL :: LF :: b)) = lexLiteral (phase12 (a ++ b))
 
 end ChibiVerif.Props.C11
